@@ -528,6 +528,26 @@ def v_apfl(p):
                   f'for_each_client outputs ({stores}): keys(new) is a subset of keys(old) + ids(participating clients)')
 
 
+def v_apfl_table_frame(p):
+  """No function of the APFL module other than the training round writes the per-client state table: evaluation reads it
+  (`.get(cid, default)`), it never inserts (OWN frame analysis of every function in apfl.py)."""
+  from .. import own
+  from ..extract import parse
+  _, tree = parse(AP)
+  bad, n_sites = [], 0
+  for n in tree.body:
+    if not isinstance(n, ast.FunctionDef):
+      continue
+    sites, _ = own.analyze_function(n, n.name)
+    for s in sites:
+      n_sites += 1
+      if 'client_states' in s.what and not s.ok:
+        bad.append(f'{AP}:{s.lineno} {s.fn}: {s.what.strip()} ({s.why})')
+  p.oblige('apfl.keys.frame', [], z3.BoolVal(not bad and n_sites >= 1), kind='frame', fn='apfl',
+           detail='every mutation of a client_states table in apfl.py is on a table created in the same call (the copy made by '
+                  f'apply); evaluation and helpers never insert into the table of the state they are given ({bad}; {n_sites} sites)')
+
+
 def build(p):
   D = 'native/C17.py'
   p.native('', D, 'invariants')
@@ -539,6 +559,7 @@ def build(p):
   v_ml_clip(p)
   v_ignore_grads(p)
   v_apfl(p)
+  v_apfl_table_frame(p)
   from . import C17_hyp
   C17_hyp.build(p)
   from .. import link
